@@ -81,7 +81,12 @@ def add_grids(rng, P, tname, dyadic):
             zs.add(z)
     if not zs:
         return []
-    sg = {'axial_positions': sorted(zs)}
+    # the input format does not ask for an ascending list: half of the
+    # inputs give the grids in another order
+    order = sorted(zs)
+    if len(order) > 1 and rng.random() < 0.5:
+        order = [order[i] for i in rng.permutation(len(order))]
+    sg = {'axial_positions': order}
     mode = wl.choose(rng, ['loss', 'REH', 'CDD'])
     if mode == 'loss':
         sg['loss_coeff'] = float(rng.uniform(0.3, 3.0))
